@@ -22,6 +22,7 @@ import (
 //	         plus block_time  -> plan: logs + headers  (hashes = true)
 //	lognh    the same without block_time -> plan: logs only (hashes = false)
 //	tx       block fields tx_to, tx_value  -> plan: blocks (hashes = true); one row per transaction
+//	txr      block fields tx_status, block_time -> plan: headers + receipts (hashes = true); one row per transaction
 //	trace    block fields trace_action_from/to/value -> plan: blocks + traces; one row per trace action
 //	created  Created(address indexed addr) selected, no data -> logs only (hashes = false);
 //	         with Hdr: plus block_time (hashes = true).  Target of filter references.
@@ -66,7 +67,7 @@ type jcol struct {
 
 func (ig *IGSpec) hashes() bool {
 	switch ig.Shape {
-	case "log", "tx", "trace":
+	case "log", "tx", "txr", "trace":
 		return true
 	}
 	return ig.Hdr
@@ -148,6 +149,9 @@ func (ig *IGSpec) jsonConfig() map[string]any {
 		}
 		addBD("tx_to", "bytea", flt)
 		addBD("tx_value", "numeric", nil)
+	case "txr":
+		addBD("tx_status", "int", nil)
+		addBD("block_time", "numeric", nil)
 	case "trace":
 		addBD("trace_action_from", "bytea", nil)
 		addBD("trace_action_to", "bytea", nil)
@@ -345,6 +349,8 @@ func (ig *IGSpec) Project(c *Chain, b *Block, src string) []RowVals {
 				continue
 			}
 			out = append(out, stamp(RowVals{"tx_idx": u64(tx.Idx), "tx_to": tx.To, "tx_value": u64(tx.Value)}))
+		case "txr":
+			out = append(out, stamp(RowVals{"tx_idx": u64(tx.Idx), "tx_status": u64(1), "block_time": u64(b.Time)}))
 		case "trace":
 			for i, ta := range tx.Traces {
 				out = append(out, stamp(RowVals{"tx_idx": u64(tx.Idx), "trace_action_idx": u64(uint64(i)),
